@@ -95,17 +95,16 @@ def pubsFrom (base : Nat) : List Change → List Pub
 
 def Broker.pubs (b : Broker) : List Pub := pubsFrom 0 b.log
 
+def takeOpt (lim : Option Nat) (l : List Pub) : List Pub :=
+  match lim with | none => l | some n => l.take n
+
 /-- mapHub.getStream with a `Since` filter (limit < 0 encoded as none). `none` = ErrorUnrecoverablePosition. -/
 def readStream (b : Broker) (since : Pos) (limit : Option Nat) : Option (List Pub × Pos) :=
   if since.ep ≠ 0 ∧ since.ep ≠ b.epoch then none
   else if b.top = since.off then some ([], b.pos)
   else
     let start := max since.off b.lo          -- first returned offset is start+1
-    let items := b.pubs.filter (fun p => p.off > start)
-    let items := match limit with
-      | none => items
-      | some l => items.take l
-    some (items, b.pos)
+    some (takeOpt limit (b.pubs.filter (fun p => p.off > start)), b.pos)
 
 /-- Node.MapStreamRead: broker read + trim detection. -/
 def nodeStreamRead (b : Broker) (since : Pos) (limit : Option Nat) : Option (List Pub × Pos) :=
